@@ -111,49 +111,63 @@ func hasAll(set string, need string) bool {
 	return true
 }
 
-// fileHashAlgorithm determines the algorithm constant that type T's
-// UnmarshalControl tags its entries with.
+// fileHashAlgorithm determines the algorithm that type T's UnmarshalControl tags its
+// entries with: the method is interpreted on one well-formed line and the Algorithm field
+// of the result is read.
+var fileHashAlgMemo = map[*types.Named][2]string{}
+
 func fileHashAlgorithm(p *Prog, named *types.Named) (string, string) {
+	if r, ok := fileHashAlgMemo[named]; ok {
+		return r[0], r[1]
+	}
+	alg, why := fileHashAlgorithm1(p, named)
+	fileHashAlgMemo[named] = [2]string{alg, why}
+	return alg, why
+}
+
+func fileHashAlgorithm1(p *Prog, named *types.Named) (string, string) {
 	fn := p.Method("control", named.Obj().Name(), "UnmarshalControl")
 	if fn == nil {
 		return "", "no UnmarshalControl method"
 	}
-	cands := map[string]bool{}
-	for _, b := range fn.Blocks {
-		for _, ins := range b.Instrs {
-			switch x := ins.(type) {
-			case *ssa.Call:
-				if callee := x.Call.StaticCallee(); callee != nil && inRepo(callee) {
-					for _, a := range x.Call.Args {
-						if s, ok := constString(a); ok {
-							cands[s] = true
-						}
-					}
-				}
-			case *ssa.Store:
-				if fa, ok := x.Addr.(*ssa.FieldAddr); ok {
-					st := derefStruct(fa.X.Type())
-					if st != nil && st.Field(fa.Field).Name() == "Algorithm" {
-						if s, ok := constString(x.Val); ok {
-							cands[s] = true
-						}
+	for _, line := range []string{"0123456789abcdef0123456789abcdef 1234 file_1.0.dsc", "0123456789abcdef0123456789abcdef 1234 devel optional file_1.0.dsc"} {
+		m := NewMachine(p, nil)
+		st := initState(m, "control")
+		id := st.alloc(named, zeroVal(named))
+		st.push(fn, []Val{Ptr{Obj: id}, line}, nil)
+		out := m.Run(st)
+		if len(out) != 1 || out[0].Status != stRet {
+			return "", "undecided: UnmarshalControl of " + named.Obj().Name() + ": " + retDesc(out)
+		}
+		if _, isErr := out[0].Ret.(IfaceV); isErr {
+			continue // not the layout of this type's lines
+		}
+		alg := ""
+		found := false
+		var walk func(t types.Type, v Val)
+		walk = func(t types.Type, v Val) {
+			s, ok := t.Underlying().(*types.Struct)
+			sv, ok2 := v.(*StructV)
+			if !ok || !ok2 {
+				return
+			}
+			for i := 0; i < s.NumFields(); i++ {
+				if s.Field(i).Embedded() {
+					walk(s.Field(i).Type(), sv.F[i])
+				} else if s.Field(i).Name() == "Algorithm" {
+					if a, isStr := sv.F[i].(string); isStr {
+						alg, found = a, true
 					}
 				}
 			}
 		}
-	}
-	if len(cands) != 1 {
-		var l []string
-		for k := range cands {
-			l = append(l, k)
+		walk(named, out[0].Heap[id].V)
+		if !found {
+			return "", "entries of " + named.Obj().Name() + " carry no Algorithm"
 		}
-		sort.Strings(l)
-		return "", fmt.Sprintf("algorithm constant not unique: %v", l)
+		return alg, ""
 	}
-	for k := range cands {
-		return k, ""
-	}
-	return "", ""
+	return "", "UnmarshalControl of " + named.Obj().Name() + " accepts neither a three-column nor a five-column line"
 }
 
 func isNamed(t types.Type, pkg, name string) bool {
